@@ -374,6 +374,19 @@ func (d *resetDec) Reset(r io.Reader)          { d.rc.(flate.Resetter).Reset(r, 
 
 func genC18(tier string, r *rng) {
 	_ = rand.Int
+	// the extension negotiator reused with Reset, its exported Parameters changed by the owner in between: it
+	// answers like a new Extension with the parameters it has NOW
+	for _, c1 := range []string{"0,0,0,0", "1,1,0,0", "0,0,12,10"} {
+		for _, c2 := range []string{"1,1,0,0", "0,0,0,0", "1,0,10,0", "0,1,0,12"} {
+			if c1 == c2 {
+				continue
+			}
+			for _, offer := range []string{offerItem(false, false, 0, 0), offerItem(true, false, 12, 1), offerItem(false, true, 0, 10)} {
+				run(fmt.Sprintf("neg %s %s reset cfg=%s %s", c1, offer, c2, offer))
+				run(fmt.Sprintf("neg %s %s %s reset cfg=%s %s reset %s", c1, offer, offer, c2, offer, offer))
+			}
+		}
+	}
 	// wsutil.Writer: histories x after-sequences
 	hists := []string{"-", "w:" + hx(r.bytes(5)), "w:" + hx(r.bytes(40)), "w:" + hx(r.bytes(5)) + ",ff", "w:" + hx(r.bytes(5)) + ",fl", "g:100,w:" + hx(r.bytes(60)),
 		"se:c1,w:" + hx(r.bytes(3)), "nf,w:" + hx(r.bytes(3)), "se:c1,nf", "w:" + hx(r.bytes(30)) + ",w:" + hx(r.bytes(30)) + ",w:" + hx(r.bytes(30)), "wt:" + hx(r.bytes(9))}
